@@ -19,20 +19,13 @@ func (rec) RenderImage(image.Image, canvas.Matrix)  {}
 type rec2 = rec
 
 func main() {
-	fmt.Println("F3: canonical pattern recorded with the old offset")
+	fmt.Println("P4: odd pattern, negative offset, short path")
 	c := canvas.New(10, 6)
 	ctx := canvas.NewContext(c)
 	ctx.SetStrokeColor(canvas.Blue)
-	ctx.SetDashes(0, 0, 1, 2, 3)
-	q := canvas.MustParseSVGPath("M0 0L10 0")
+	ctx.SetDashes(-1, 6)
+	q := canvas.MustParseSVGPath("M0 0L0.5 0")
 	ctx.DrawPath(0, 0, q)
 	c.RenderTo(rec2{})
-	fmt.Println("  q.Dash(0, 0,1,2,3) =", q.Dash(0, 0, 1, 2, 3), " recorded means", q.Dash(0, 2, 4))
-	c = canvas.New(10, 6)
-	ctx = canvas.NewContext(c)
-	ctx.SetStrokeColor(canvas.Blue)
-	ctx.SetDashes(0, 2, 1, 3, 0)
-	ctx.DrawPath(0, 0, q)
-	c.RenderTo(rec2{})
-	fmt.Println("  q.Dash(0, 2,1,3,0) =", q.Dash(0, 2, 1, 3, 0))
+	fmt.Println("  q.Dash(-1, 6) =", q.Dash(-1, 6), "empty:", q.Dash(-1, 6).Empty())
 }
